@@ -368,6 +368,34 @@ def run_tie(rep, tier, rs, replay=None):
             if ndirect <= 5:
                 rep.violation(dict(kind="fit-raised", error=f"{type(e).__name__}: {e}", case=brief(case)), True)
             continue
+        # the same 0/1 matrix stored with other dtypes (bool, narrow and wide integers, float64) and repeated to >= 300 rows
+        # (counts beyond the range of a narrow integer) must give the same tree and tables
+        if case["m"] > 0 and case["req"] is not None and dist.get("dtype_cases", 0) < (12 if tier == "quick" else 80) and len(runs) % 3 == 0:
+            dist["dtype_cases"] = dist.get("dtype_cases", 0) + 1
+            from deeprob.spn.structure.cltree import BinaryCLT as _CLT
+            reps_ = int(np.ceil(320.0 / case["m"])) if dist["dtype_cases"] % 2 == 0 else 1
+            big = np.tile(case["data"], (reps_, 1))
+            def fit_as(dt):
+                c_ = _CLT(list(case["scope"]), root=case["req"])
+                with np.errstate(all="ignore"):
+                    c_.fit(big.astype(dt), [[0, 1]] * n, alpha=case["alpha"], random_state=case["fit_seed"])
+                return [int(t) for t in c_.tree], np.asarray(c_.params, dtype=np.float64)
+            try:
+                t0_, p0_ = fit_as(np.float32)
+                for dt in (np.float64, np.int64, np.int8, np.uint8, np.bool_):
+                    t1_, p1_ = fit_as(dt)
+                    # compared as probabilities: float32 forms 1 - p, so a tiny probability carries an ABSOLUTE error of ~6e-8
+                    if t1_ != t0_ or not np.allclose(np.exp(p1_), np.exp(p0_), rtol=2e-4, atol=1e-6, equal_nan=True):
+                        ndirect += 1
+                        if ndirect <= 5:
+                            rep.violation(dict(kind="fit-depends-on-the-dtype-the-data-is-stored-in", dtype=np.dtype(dt).name, rows=int(len(big)),
+                                               tree_float32=t0_, tree_this_dtype=t1_, params_float32=p0_.tolist(), params_this_dtype=p1_.tolist(),
+                                               case=brief(case)), True)
+                        break
+            except Exception as e:
+                ndirect += 1
+                if ndirect <= 5:
+                    rep.violation(dict(kind="fit-raised", error=f"{type(e).__name__}: {e}", what="same data, other dtype", case=brief(case)), True)
         # python-side clauses (correspondence-only)
         want = case["scope"].index(case["req"]) if case["req"] is not None else out["root"]
         bad = None; malformed = False
